@@ -3,8 +3,8 @@
    and their Print Assumptions.  Model: Model/C19_Filter.v (hint.go, filter.go),
    Model/C16_RemoveWs.v (removeWhitespace).  Tie: harness/py/props/c19.py runs the real
    sourcemapx.Filter / Hint.Pack / removeWhitespace and the model on the same streams. *)
-From Coq Require Import List NArith Arith Bool Sorted.
-From Verif Require Import Model.C19_Filter Proofs.C19_Filter.
+From Coq Require Import List NArith ZArith Arith Bool Sorted.
+From Verif Require Import Model.C19_Filter Proofs.C19_Filter Model.C19_Vlq Proofs.C19_Vlq.
 Import ListNotations.
 
 (* Full statement, byte-stream half: for EVERY stream of code pieces and hints and
@@ -68,3 +68,70 @@ Example C19_nonvacuous :
   chunking_of items iss /\
   run_chunks (map render iss) = Some ([97;10;98;99;100;10;101], [(2,1,[1;8;2]); (3,0,[])])%N.
 Proof. vm_compute. split; [split|]; reflexivity. Qed.
+
+(* ---- the encoded map ("mappings" string, Sources, Names): model of writeVLQ/readVLQ, Map.EncodeMappings
+   (after its sort) and Map.decodeMappings of github.com/neelance/sourcemap, through which filter.go
+   writes every mapping and reads esbuild's maps.  Tie: props/c19.py compares the model's encoding with
+   the real string and the model's decoding with the real DecodedMappings on every map of the run. *)
+
+(* one number: whatever was read before and whatever follows, readVLQ returns exactly the written value and
+   stops right behind it (all of Z: negative differences, zero, arbitrarily many base-32 digits) *)
+Theorem C19_vlq_roundtrip : forall v bef rest,
+  read_vlq (bef, write_vlq v ++ rest) = (Some v, (rev (write_vlq v) ++ bef, rest)).
+Proof. exact vlq_roundtrip. Qed.
+Print Assumptions C19_vlq_roundtrip.
+
+(* the whole codec, for EVERY list of mappings whose generated lines start at >= 1 and never decrease
+   (what the sort establishes) and which is empty or ends in a mapping with a file: decoding the written
+   string with the written tables yields the list again - generated line and column, file, original line
+   and column, name - where a mapping without a file keeps only its generated position ([canon]; that is
+   how EncodeMappings writes it).  The proof follows the real reader, including the four-field segment at
+   the very end of the string, after which the decoder's UnreadByte at EOF makes the loop go round once
+   more over the last digit. *)
+Definition C19_codec_roundtrip_full_statement : Prop := forall ms s srcs names,
+  lines_sorted 1%Z ms = true ->
+  encode_mappings ms = (s, srcs, names) ->
+  decode_mappings srcs names s = Some (map canon ms).
+
+Theorem C19_mappings_codec_roundtrip : forall ms s srcs names,
+  lines_sorted 1%Z ms = true -> last_has_file ms = true ->
+  encode_mappings ms = (s, srcs, names) ->
+  decode_mappings srcs names s = Some (map canon ms).
+Proof. exact mappings_roundtrip. Qed.
+Print Assumptions C19_mappings_codec_roundtrip.
+
+(* Without [last_has_file] the statement is FALSE of the decoder as written: a final mapping without a file
+   (a one-field segment at the end of the string, e.g. "AAqBkC,A") is lost - strings.Reader.UnreadByte after
+   the ReadByte that failed at EOF steps back over the last digit, the digit is counted twice more and the
+   segment ends with count = 3.  GopherJS applies this decoder only to esbuild's maps of the prelude (whose
+   segments have four fields), never to the maps it writes, so no emitted map is affected: an observation
+   about the dependency, replayed against the real decoder on every run, not a violation of C19. *)
+Theorem C19_codec_roundtrip_trailing_sourceless_refuted :
+  lines_sorted 1%Z trailing_witness = true /\
+  trailing_result = Some (removelast (map canon trailing_witness)).
+Proof. exact roundtrip_unrestricted_refuted. Qed.
+Print Assumptions C19_codec_roundtrip_trailing_sourceless_refuted.
+
+Theorem C19_mappings_codec_injective : forall ms1 ms2,
+  lines_sorted 1%Z ms1 = true -> lines_sorted 1%Z ms2 = true ->
+  last_has_file ms1 = true -> last_has_file ms2 = true ->
+  encode_mappings ms1 = encode_mappings ms2 -> map canon ms1 = map canon ms2.
+Proof. exact mappings_injective. Qed.
+Print Assumptions C19_mappings_codec_injective.
+
+(* the "mappings" string consists of base64 digits, ',' and ';' only (so it never needs JSON escaping
+   and never contains a hint byte) *)
+Theorem C19_mappings_alphabet : forall ms s srcs names,
+  encode_mappings ms = (s, srcs, names) -> forallb out_char s = true.
+Proof. intros ms s srcs names H. exact (mappings_chars ms _ _ _ _ _ _ _ H). Qed.
+Print Assumptions C19_mappings_alphabet.
+
+(* Non-vacuity: a file-less mapping, a line jump, a repeated and a new file, a name, a big negative delta. *)
+Example C19_codec_nonvacuous :
+  let ms := [ {| m_gl := 1; m_gc := 0; m_file := [97%N]; m_ol := 3; m_oc := 1; m_name := [] |};
+              {| m_gl := 1; m_gc := 40; m_file := []; m_ol := 0; m_oc := 0; m_name := [] |};
+              {| m_gl := 4; m_gc := 1000; m_file := [98%N]; m_ol := 1000000; m_oc := 100; m_name := [120%N] |};
+              {| m_gl := 4; m_gc := 1000; m_file := [97%N]; m_ol := 1; m_oc := 0; m_name := [120%N] |} ]%Z in
+  lines_sorted 1%Z ms = true /\ last_has_file ms = true /\
+  (let '(s, a, b) := encode_mappings ms in decode_mappings a b s) = Some ms.
+Proof. vm_compute. repeat split; reflexivity. Qed.
